@@ -139,4 +139,18 @@ PROPS["C01"] = dict(
     trusted=["smx509.Verify as oracle", "tk in-memory transports / virtual-time network"],
 )
 
+PROPS["C10"] = dict(
+    technique="Coq invariant proofs over histories of connections on a model composing the proved LRU cache, the negotiation model and the resumption decisions + correspondence on random histories of real connections of both stacks",
+    level_text="Theorems over every history (resume iff offered-held-enabled-policy, transparent fallback, failed session not re-offered, fresh identifiers, same identity, forged identifiers "
+               "never resumed) proved in Coq by an invariant over event sequences; random histories (one client, three servers, cache loss, reconfiguration, forged identifiers, induced "
+               "failures, capacities down to 1) are run with real connections and the model must predict for every connection the identifier offered, both resumption flags, both "
+               "results and the new session.",
+    level_note="Trusted: Coq kernel + vm_compute; session identifiers are numbered by order of creation (the 32 random bytes themselves are not modelled: freshness is relative to the RNG); "
+               "fresh keys on resumption follow from fresh randoms under the cached master secret (C04 checks the derivation).",
+    code_names={1: "ends-disagree-on-resumption-or-success", 2: "resumed-without-an-offered-session", 3: "failed-session-offered-again", 4: "session-identifier-reused",
+                5: "no-transparent-fallback", 6: "session-from-a-failed-handshake-offered"},
+    assumptions=["Config.Rand yields fresh identifiers"],
+    trusted=["verif hook VerifNewSessionWithCerts (forged cache entries)", "smx509.Verify as oracle"],
+)
+
 NOT_YET = {}
